@@ -9,7 +9,9 @@
    proofs are in coq/Eval/*Proofs.v. *)
 From Coq Require Import ZArith NArith QArith Reals List Bool.
 From Flocq Require Import IEEE754.BinarySingleNaN.
-From VV Require Import Base.F64 Eval.EvalDefs Eval.EvalProofs Eval.EvalExactProofs Eval.EvalFloatProofs Eval.EvalMeanProofs.
+From VV Require Import Lambda.LambdaDefs Lambda.LambdaFloat.
+From VV Require Import Base.F64 Eval.EvalDefs Eval.EvalProofs Eval.EvalExactProofs Eval.EvalFloatProofs Eval.EvalMeanProofs
+  Eval.EvalClassDefs Eval.EvalClassProofs Eval.EvalGlue.
 Import ListNotations.
 
 (* ================================================================ exact == *)
@@ -55,41 +57,31 @@ Print Assumptions C05_difficulty_frame_errors.
 Theorem C05_difficulty_frame_any_step : forall (errf : example -> f64) (step : nat) (d : list example),
   Forall2 (fun e e' => e' = e \/ (negb (issmall (errf e)) = true /\ e' = bump e))
           d (fst (sum_of_errors_impl errf step d)).
-Proof.
-  intros errf step d. unfold sum_of_errors_impl.
-  pose proof (soe_loop_frame errf step d 0%nat (F64.zero, F64.zero)) as H.
-  destruct (soe_loop errf step 0 d (F64.zero, F64.zero)). exact H.
-Qed.
+Proof. exact P_difficulty_frame_any_step. Qed.
 Print Assumptions C05_difficulty_frame_any_step.
 
-Theorem C05_difficulty_frame_classification : forall tag (d d' : list example) (f : fitness),
-  dyn_slot_eval tag d = Some (d', f) ->
-  d' = map (fun e => if cls_wrong tag e then bump e else e) d.
-Proof.
-  intros tag d d' f H. unfold dyn_slot_eval, count_eval in H.
-  destruct (count_loop tag d F64.zero) as [[r err]|] eqn:E; [|discriminate].
-  injection H as <- _. exact (count_loop_frame tag d F64.zero (r, err) E).
-Qed.
+(* classification loops, for ANY tag function: what the loop leaves behind,
+   exception included (label() throws std::bad_variant_access on an example
+   whose output cell is not an integer: the examples before it keep their
+   increments, that one and the following ones are untouched) *)
+Theorem C05_difficulty_frame_classification : forall tag (d : list example),
+  fst (dyn_slot_eval tag d) = frame_cls (cls_wrong tag) d /\
+  (forall f, snd (dyn_slot_eval tag d) = Some f ->
+     fst (dyn_slot_eval tag d) = map (fun e => if cls_wrong tag e then bump e else e) d).
+Proof. exact P_difficulty_frame_classification. Qed.
 Print Assumptions C05_difficulty_frame_classification.
 
-Theorem C05_difficulty_frame_gaussian : forall tag classes (d d' : list example) (f : fitness),
-  gaussian_eval tag classes d = Some (d', f) ->
-  d' = map (fun e => if cls_wrong tag e then bump e else e) d.
-Proof.
-  intros tag classes d d' f H. unfold gaussian_eval in H.
-  destruct (gaussian_loop tag (gaussian_scale classes) d F64.zero) as [[r v]|] eqn:E; [|discriminate].
-  injection H as <- _. exact (gaussian_loop_frame tag _ d F64.zero (r, v) E).
-Qed.
+Theorem C05_difficulty_frame_gaussian : forall tag classes (d : list example),
+  fst (gaussian_eval tag classes d) = frame_cls (cls_wrong tag) d /\
+  (forall f, snd (gaussian_eval tag classes d) = Some f ->
+     fst (gaussian_eval tag classes d) = map (fun e => if cls_wrong tag e then bump e else e) d).
+Proof. exact P_difficulty_frame_gaussian. Qed.
 Print Assumptions C05_difficulty_frame_gaussian.
 
-(* the classification loops only fail (std::bad_variant_access) on an example
-   whose output cell is not an integer label *)
+(* the loops complete exactly when every output cell is an integer label *)
 Theorem C05_classification_total : forall tag d, Forall (fun e => label e <> None) d ->
-  exists r, dyn_slot_eval tag d = Some r.
-Proof.
-  intros tag d H. unfold dyn_slot_eval, count_eval.
-  destruct (count_loop_total tag d F64.zero H) as [[r err] ->]. eexists; reflexivity.
-Qed.
+  exists f, snd (dyn_slot_eval tag d) = Some f.
+Proof. exact P_classification_total. Qed.
 Print Assumptions C05_classification_total.
 
 (* ---- ga_evaluator, constrained_evaluator ------------------------------- *)
@@ -110,10 +102,7 @@ Print Assumptions C05_constrained_prepends_minus_penalty.
 Theorem C05_undefined_output_gets_penalty : forall out e, out (ex_in e) = PVoid ->
   mae_err out e = F64.div dbl_max hundred /\ mse_err out e = F64.div dbl_max hundred /\
   rmae_err out e = two_hundred /\ count_err out e = one.
-Proof.
-  intros out e H. repeat split;
-  [exact (undefined_mae out e H)|exact (undefined_mse out e H)|exact (undefined_rmae out e H)|exact (undefined_count out e H)].
-Qed.
+Proof. exact P_undefined_output_gets_penalty. Qed.
 Print Assumptions C05_undefined_output_gets_penalty.
 
 Example C05_penalty_values :
@@ -135,12 +124,7 @@ Theorem C05_error_evaluators_never_nan_never_positive :
   errf = mae_err out \/ errf = mse_err out \/ errf = rmae_err out \/ errf = count_err out ->
   exists v, snd (sum_of_errors_impl errf step d) = [v] /\
             F64.is_finite v = true /\ F64.is_nan v = false /\ (B2R v <= 0)%R.
-Proof.
-  intros out step d errf H.
-  destruct (sum_of_errors_sign errf step d) as (v & E & F & P).
-  - intros e _. destruct H as [ -> | [ -> | [ -> | -> ] ] ]; [apply nn_mae|apply nn_mse|apply nn_rmae|apply nn_count].
-  - exists v. repeat split; try assumption. destruct v; try discriminate F; reflexivity.
-Qed.
+Proof. exact P_error_evaluators_never_nan_never_positive. Qed.
 Print Assumptions C05_error_evaluators_never_nan_never_positive.
 
 (* any user supplied error functor that never returns a negative value *)
@@ -148,10 +132,7 @@ Theorem C05_sum_of_errors_never_nan_never_positive :
   forall (errf : example -> f64) (step : nat) (d : list example),
   (forall e, In e d -> F64.ltb (errf e) F64.zero = false) ->
   exists v, snd (sum_of_errors_impl errf step d) = [v] /\ F64.is_finite v = true /\ (B2R v <= 0)%R.
-Proof.
-  intros errf step d H. apply sum_of_errors_sign. intros e He. specialize (H e He).
-  destruct (errf e) as [s|s| |s m ex pf]; cbn; auto; destruct s; try reflexivity; discriminate H.
-Qed.
+Proof. exact P_sum_of_errors_never_nan_never_positive. Qed.
 Print Assumptions C05_sum_of_errors_never_nan_never_positive.
 
 (* ---- every target reproduced => fitness is zero (bit pattern of -0.0) ---- *)
@@ -161,11 +142,7 @@ Theorem C05_all_reproduced_gives_zero :
   (forall e, In e d ->
      p_has_value (out (ex_in e)) = true /\ lex_double (out (ex_in e)) = target e /\ F64.is_finite (target e) = true) ->
   snd (sum_of_errors_impl errf step d) = [F64.neg F64.zero].
-Proof.
-  intros out step d errf H R. apply all_reproduced_gives_zero. intros e He.
-  destruct (reproduced_errors_zero out e (R e He)) as (E1 & E2 & E3 & E4).
-  destruct H as [ -> | [ -> | [ -> | -> ] ] ]; assumption.
-Qed.
+Proof. exact P_all_reproduced_gives_zero. Qed.
 Print Assumptions C05_all_reproduced_gives_zero.
 
 (* ---- single-row data: the fitness is exactly minus the error ------------- *)
@@ -177,21 +154,21 @@ Print Assumptions C05_single_row_fitness_is_minus_error.
 
 (* ---- dyn_slot / binary: minus the number of misclassified examples ------- *)
 Theorem C05_count_is_minus_mismatches : forall tag (d d' : list example) (f : fitness),
-  dyn_slot_eval tag d = Some (d', f) -> (Z.of_nat (length d) < 2 ^ 53)%Z ->
+  dyn_slot_eval tag d = (d', Some f) -> (Z.of_nat (length d) < 2 ^ 53)%Z ->
   exists v, f = [v] /\ F64.is_finite v = true /\
             B2R v = (- IZR (Z.of_nat (length (filter (cls_wrong tag) d))))%R.
 Proof. exact count_is_minus_mismatches. Qed.
 Print Assumptions C05_count_is_minus_mismatches.
 
 Theorem C05_binary_is_minus_mismatches : forall out (d d' : list example) (f : fitness),
-  binary_eval out d = Some (d', f) -> (Z.of_nat (length d) < 2 ^ 53)%Z ->
+  binary_eval out d = (d', Some f) -> (Z.of_nat (length d) < 2 ^ 53)%Z ->
   exists v, f = [v] /\ F64.is_finite v = true /\
-            B2R v = (- IZR (Z.of_nat (length (filter (cls_wrong (binary_tag out)) d))))%R.
-Proof. intros out. exact (count_is_minus_mismatches (binary_tag out)). Qed.
+            B2R v = (- IZR (Z.of_nat (length (filter (cls_wrong (EvalDefs.binary_tag out)) d))))%R.
+Proof. exact P_binary_is_minus_mismatches. Qed.
 Print Assumptions C05_binary_is_minus_mismatches.
 
 Theorem C05_count_zero_iff_all_right : forall tag (d d' : list example) (f : fitness),
-  dyn_slot_eval tag d = Some (d', f) -> (Z.of_nat (length d) < 2 ^ 53)%Z ->
+  dyn_slot_eval tag d = (d', Some f) -> (Z.of_nat (length d) < 2 ^ 53)%Z ->
   (f = [F64.neg F64.zero] <-> forall e, In e d -> cls_wrong tag e = false).
 Proof. exact count_zero_iff_all_right. Qed.
 Print Assumptions C05_count_zero_iff_all_right.
@@ -200,7 +177,7 @@ Print Assumptions C05_count_zero_iff_all_right.
 Theorem C05_gaussian_bounds : forall tag classes (d d' : list example) (f : fitness),
   (forall i, F64.is_finite (snd (tag i)) = true /\ (0 <= B2R (snd (tag i)) <= 1)%R) ->
   (2 <= classes <= 2 ^ 53)%Z -> (Z.of_nat (length d) < 2 ^ 53)%Z ->
-  gaussian_eval tag classes d = Some (d', f) ->
+  gaussian_eval tag classes d = (d', Some f) ->
   exists v, f = [v] /\ F64.is_finite v = true /\ (- IZR (Z.of_nat (length d)) <= B2R v <= 0)%R.
 Proof. exact gaussian_bounds. Qed.
 Print Assumptions C05_gaussian_bounds.
@@ -244,9 +221,7 @@ Print Assumptions C05_wrong_example_gives_negative_fitness.
 Theorem C05_running_mean_never_negative : forall (errf : example -> f64) (step : nat) (d : list example),
   (forall e, In e d -> nn (errf e)) ->
   nn (fst (snd (soe_loop errf step 0 d (F64.zero, F64.zero)))).
-Proof.
-  intros errf step d H. exact (proj1 (soe_loop_inv errf step d 0%nat _ H soe_inv_init)).
-Qed.
+Proof. exact P_running_mean_never_negative. Qed.
 Print Assumptions C05_running_mean_never_negative.
 
 (* non-vacuity of the hypotheses above *)
@@ -255,10 +230,14 @@ Example C05_float_nonvacuous :
   let tag := fun i : list pout => (1%Z, one) in
   let d := [mk_example [PDouble one] (PInt 1) 0%N 0%N; mk_example [PDouble one] (PInt 0) 7%N 0%N] in
   (forall i, F64.is_finite (snd (tag i)) = true) /\
-  option_map (fun r => (map ex_diff (fst r), map F64.to_bits (snd r))) (gaussian_eval tag 2 d)
-    = Some ([0%N; 8%N], [F64.to_bits (F64.neg one)]) /\
-  option_map (fun r => (map ex_diff (fst r), map F64.to_bits (snd r))) (dyn_slot_eval tag d)
-    = Some ([0%N; 8%N], [F64.to_bits (F64.neg one)]).
+  (map ex_diff (fst (gaussian_eval tag 2 d)), option_map (map F64.to_bits) (snd (gaussian_eval tag 2 d)))
+    = ([0%N; 8%N], Some [F64.to_bits (F64.neg one)]) /\
+  (map ex_diff (fst (dyn_slot_eval tag d)), option_map (map F64.to_bits) (snd (dyn_slot_eval tag d)))
+    = ([0%N; 8%N], Some [F64.to_bits (F64.neg one)]) /\
+  (* an exception in the middle: the first (wrong) example keeps its increment *)
+  (map ex_diff (fst (dyn_slot_eval tag (mk_example [] (PInt 0) 1%N 0%N :: mk_example [] PVoid 5%N 0%N :: d))),
+   snd (dyn_slot_eval tag (mk_example [] (PInt 0) 1%N 0%N :: mk_example [] PVoid 5%N 0%N :: d)))
+    = ([2%N; 5%N; 0%N; 7%N], None).
 Proof. repeat split; vm_compute; reflexivity. Qed.
 
 Example C05_mean_nonvacuous :
@@ -269,3 +248,64 @@ Example C05_mean_nonvacuous :
   map negb (map issmall (map (mae_err out) d)) = [false; true] /\
   map F64.to_bits (snd (soe_eval (mae_err out) d)) = [13826050856027422720%Z].     (* 0xBFE0... = -0.5 *)
 Proof. repeat split; vm_compute; reflexivity. Qed.
+
+(* ============================ the evaluators on the REAL classifiers ==========
+   dyn_slot_evaluator / gaussian_evaluator build their classifier from the
+   program and the dataset (model: C08's coq/Lambda/LambdaDefs.v; libm's atan
+   and exp are parameters) and score the tag() of that very object. *)
+
+(* a completed dyn_slot evaluation: the fitness is minus the number of examples
+   that the dyn_slot model built from THIS dataset misclassifies, and exactly
+   those examples have their difficulty incremented *)
+Theorem C05_dyn_slot_real_counts_model_mismatches :
+  forall (libm_atan : f64 -> f64) (out : list pout -> pout) (classes x_slot : nat) (d d' : list example) (f : fitness),
+  dyn_slot_eval_real libm_atan out classes x_slot d = Done d' f -> (Z.of_nat (length d) < 2 ^ 53)%Z ->
+  exists tr m v, train_of out classes d = Built tr /\ dyn_build libm_atan classes x_slot tr = Some m /\
+    d' = map (fun e => if cls_wrong (dyn_tag_fn libm_atan out m) e then bump e else e) d /\
+    f = [v] /\ F64.is_finite v = true /\
+    B2R v = (- IZR (Z.of_nat (length (filter (cls_wrong (dyn_tag_fn libm_atan out m)) d))))%R.
+Proof. exact dyn_slot_real_counts. Qed.
+Print Assumptions C05_dyn_slot_real_counts_model_mismatches.
+
+(* a non integer label makes the constructors throw before anything is touched *)
+Theorem C05_real_constructor_throw_leaves_dataset :
+  forall (libm_atan libm_exp : f64 -> f64) (out : list pout -> pout) (classes x_slot : nat) (d : list example),
+  train_of out classes d = BuildThrows ->
+  dyn_slot_eval_real libm_atan out classes x_slot d = Thrown d /\
+  gaussian_eval_real libm_exp out classes d = Thrown d /\
+  exists e, In e d /\ label e = None.
+Proof. exact real_constructor_throw. Qed.
+Print Assumptions C05_real_constructor_throw_leaves_dataset.
+
+(* binary_evaluator has no constructor pass: an exception in the loop keeps the
+   increments already made; it never indexes a table (negative or huge labels
+   are merely never equal to a tag) *)
+Theorem C05_binary_real_frame : forall (out : list pout -> pout) (d : list example),
+  match binary_eval_real out d with
+  | Done d' _ => d' = map (fun e => if cls_wrong (EvalDefs.binary_tag out) e then bump e else e) d /\
+                 Forall (fun e => label e <> None) d
+  | Thrown d' => d' = frame_cls (cls_wrong (EvalDefs.binary_tag out)) d /\ exists e, In e d /\ label e = None
+  | Undefined => False
+  end.
+Proof. exact binary_real_frame. Qed.
+Print Assumptions C05_binary_real_frame.
+
+(* gaussian on the real classifier: finite, in [-n, 0], exactly the
+   misclassified examples bumped.
+   Hypotheses (C08's): H_libm -- exp(NaN) is NaN, exp(x) in [0,1] for x <= 0;
+   the per-class variances of the built model are NaN (empty class) or >= 0
+   (C08's open gap: Welford's m2 >= 0 under binary64 rounding). *)
+Theorem C05_gaussian_real_bounds :
+  forall (libm_exp : f64 -> f64) (out : list pout -> pout),
+  (forall x : f64, is_nan x = true -> is_nan (libm_exp x) = true) ->
+  (forall x : f64, F64.leb x F64.zero = true -> le01 (libm_exp x)) ->
+  forall (classes : nat) (d d' : list example) (f : fitness),
+  gaussian_eval_real libm_exp out classes d = Done d' f ->
+  (forall g tr, train_of out classes d = Built tr -> gauss_build classes tr = Some g ->
+                Forall (fun mv => var_ok (snd mv)) (gauss_stats g)) ->
+  (2 <= Z.of_nat classes <= 2 ^ 53)%Z -> (Z.of_nat (length d) < 2 ^ 53)%Z ->
+  exists tr g v, train_of out classes d = Built tr /\ gauss_build classes tr = Some g /\
+    d' = map (fun e => if cls_wrong (gauss_tag_fn libm_exp out g) e then bump e else e) d /\
+    f = [v] /\ F64.is_finite v = true /\ (- IZR (Z.of_nat (length d)) <= B2R v <= 0)%R.
+Proof. exact gaussian_real_bounds. Qed.
+Print Assumptions C05_gaussian_real_bounds.
